@@ -347,8 +347,14 @@ sx_parse_list(const char *s, const size_t n, const size_t i)
         rv.status = SXS_UNEXPECTED_END;
         return rv;
     }
-    struct sx_parse_result carres = sx_parse_(s, n, i);
-    if (result_is_empty_listp(&carres) || result_is_error(&carres)) {
+    /* Only a closing parenthesis ends this list; an element that happens to
+     * be an empty list must not. */
+    const size_t j = skip_ws(s, n, i);
+    if (j < n && s[j] == ')') {
+        return sx_parse_token(s, n, j);
+    }
+    struct sx_parse_result carres = sx_parse_(s, n, j);
+    if (result_is_error(&carres)) {
         return carres;
     }
 
@@ -366,6 +372,12 @@ static struct sx_parse_result
 sx_parse_(const char *s, const size_t n, const size_t i)
 {
     struct sx_parse_result rv = sx_parse_token(s, n, i);
+    if (rv.node != NULL && result_is_empty_listp(&rv)) {
+        /* A closing parenthesis that does not close anything. */
+        sx_destroy(&rv.node);
+        rv.status = SXS_UNKNOWN_INPUT;
+        return rv;
+    }
     if (rv.status == SXS_FOUND_LIST) {
         return sx_parse_list(s, n, rv.position);
     }
